@@ -549,7 +549,7 @@ void Ports::dispatch(const char *m, rtosc::RtData &d, bool base_dispatch) const
     if(!d.loc || !d.loc_size) {
         for(const Port &port: ports) {
             if(rtosc_match(port.name,m, NULL))
-                d.port = &port, port.cb(m,d), d.obj = obj;
+                d.port = &port, (port.cb ? port.cb(m,d) : (void)0), d.obj = obj;
         }
     } else {
 
@@ -594,7 +594,10 @@ void Ports::dispatch(const char *m, rtosc::RtData &d, bool base_dispatch) const
                 d.port = &port;
 
                 //Apply callback
-                port.cb(m,d), d.obj = obj;
+                //(a port may carry metadata only)
+                if(port.cb)
+                    port.cb(m,d);
+                d.obj = obj;
 
                 //Remove the rest of the path
                 char *tmp = old_end;
@@ -654,7 +657,10 @@ void Ports::dispatch(const char *m, rtosc::RtData &d, bool base_dispatch) const
                 d.port = &port;
 
                 //Apply callback
-                port.cb(m,d), d.obj = obj;
+                //(a port may carry metadata only)
+                if(port.cb)
+                    port.cb(m,d);
+                d.obj = obj;
 
                 //Remove the rest of the path
                 old_end[0] = '\0';
